@@ -1728,6 +1728,7 @@ func (l *Loader) prepareEntityFetch(fetchItem *FetchItem, fetch *EntityFetch, it
 		selectionHash := responseCacheSelectionHash(
 			rendered[:responseCacheHeaderEnd],
 			rendered[responseCacheFooterStart:],
+			undefinedVariables,
 		)
 		responseCacheItemHash := xxhash.Sum64(renderedItem)
 		prepared.responseCacheKeys = []string{caching.Key(responseCacheItemHash, selectionHash)}
@@ -1922,6 +1923,7 @@ WithNextItem:
 		selectionHash := responseCacheSelectionHash(
 			rendered[:responseCacheHeaderEnd],
 			rendered[responseCacheFooterStart:],
+			undefinedVariables,
 		)
 		prepared.responseCacheKeys = make([]string, len(responseCacheItemHashes))
 		for i, itemHash := range responseCacheItemHashes {
